@@ -31,6 +31,14 @@ type sessCfg struct {
 	Stream     bool `json:"stream"`
 	WriteDelay bool `json:"writedelay"`
 	AckNoDelay bool `json:"acknodelay"`
+	Retune     bool `json:"retune,omitempty"` // SetNoDelay(-1, ...) follows: "leave the mode as it is"
+}
+
+func (c sessCfg) minRTO() uint32 {
+	if c.NoDelay != 0 {
+		return IKCP_RTO_NDL
+	}
+	return IKCP_RTO_MIN
 }
 
 type linkCfg struct {
@@ -64,6 +72,7 @@ func randomSessCfg(rng *vrng) sessCfg {
 		Stream:     rng.chance(0.4),
 		WriteDelay: rng.chance(0.3),
 		AckNoDelay: rng.chance(0.3),
+		Retune:     rng.chance(0.3),
 	}
 }
 
@@ -122,6 +131,7 @@ type sessMon struct {
 	outputs atomic.Int64
 	zeroAdv atomic.Int64
 	armed   atomic.Bool
+	expMinRTO atomic.Uint32 // minimum RTO the scenario's configuration asks for (0: the scenario retunes freely)
 }
 
 func (m *sessMon) admitted(k *KCP, newSegs int) {
@@ -216,8 +226,8 @@ func (m *sessMon) occupancy() {
 	if out > int32(sw) || out < 0 {
 		m.w.viol("C04 more than a send window of segments outstanding", "session %s: %d, snd_wnd=%d", m.name, out, sw)
 	}
-	if rto < minrto || rto > IKCP_RTO_MAX {
-		m.w.viol("C18 retransmission timeout outside [minimum, 60s]", "session %s: rx_rto=%d minrto=%d", m.name, rto, minrto)
+	if exp := m.expMinRTO.Load(); rto < minrto || rto < exp || rto > IKCP_RTO_MAX {
+		m.w.viol("C18 retransmission timeout outside [minimum, 60s]", "session %s: rx_rto=%d, minimum configured %d (0: not fixed by the scenario), core's own minimum %d", m.name, rto, exp, minrto)
 	}
 	m.w.rec.count("session_occupancy_evaluations", 1)
 }
@@ -226,6 +236,7 @@ func (m *sessMon) occupancy() {
 // world
 
 type sessWorld struct {
+	onObserved atomic.Pointer[func(from, to net.Addr, data []byte, kind string)] // after the wire decoder classified a datagram
 	rec  *vrec
 	desc any
 	hub  *simHub
@@ -280,6 +291,9 @@ func newSessWorld(t *testing.T, rec *vrec, desc any, link linkCfg, keySeed uint6
 		w.mu.Unlock()
 		if f != nil {
 			f.observe(data, nowMs)
+			if cb := w.onObserved.Load(); cb != nil {
+				(*cb)(from, to, data, f.kindOfLast())
+			}
 		}
 	}
 	w.snmp0 = DefaultSnmp.Copy()
@@ -365,6 +379,9 @@ func applySessCfg(s *UDPSession, c sessCfg) bool {
 	}
 	s.SetWindowSize(c.SndWnd, c.RcvWnd)
 	s.SetNoDelay(c.NoDelay, c.Interval, c.Resend, c.NC)
+	if c.Retune {
+		s.SetNoDelay(-1, c.Interval, c.Resend, c.NC)
+	}
 	s.SetStreamMode(c.Stream)
 	s.SetWriteDelay(c.WriteDelay)
 	s.SetACKNoDelay(c.AckNoDelay)
@@ -894,7 +911,7 @@ func runSessScenario(t *testing.T, rec *vrec, sc *sessScenario, rng *vrng, hooks
 	client, cconn := w.dial(2, conv)
 	applySessCfg(client, sc.CfgC)
 	streamCS, streamSC := uint64(0xC000)+uint64(sc.Case&0xfff), uint64(0xD000)+uint64(sc.Case&0xfff)
-	w.watch(client, "client", cconn.addr, w.laddr, sc.CfgC, streamCS)
+	w.watch(client, "client", cconn.addr, w.laddr, sc.CfgC, streamCS).expMinRTO.Store(sc.CfgC.minRTO())
 	res := sessResult{w: w, client: client}
 	if hooks.pre != nil {
 		hooks.pre(w, client)
@@ -921,7 +938,7 @@ func runSessScenario(t *testing.T, rec *vrec, sc *sessScenario, rng *vrng, hooks
 	}
 	res.server = server
 	applySessCfg(server, sc.CfgS)
-	w.watch(server, "server", w.laddr, cconn.addr, sc.CfgS, streamSC)
+	w.watch(server, "server", w.laddr, cconn.addr, sc.CfgS, streamSC).expMinRTO.Store(sc.CfgS.minRTO())
 	x1.to = server
 	go x1.reader()
 	server.mu.Lock()
